@@ -4,7 +4,9 @@
 a scratch copy of /verif and records whether the check reports it.  Nothing under /repo or
 /verif is modified except notes/selftest-results.json.
 
-usage: tools/selftest.py [--only id,id,...] [--prop Cxx] [--all-checks] [--keep]
+usage: tools/selftest.py [--only id,id,...] [--prop Cxx] [--all-checks] [--keep] [--seeded] [--fast]
+  --fast   re-evaluation of changes that were confirmed before: the 55 tests and the demonstration
+           are not run again (their recorded results are carried over from the previous results file)
 """
 import json, os, shutil, subprocess, sys, time
 
@@ -103,6 +105,14 @@ def main():
     only = None
     prop = None
     all_checks = "--all-checks" in args
+    fast = "--fast" in args
+    prevmap = {}
+    for pf in (["seeded-results.json", "seeded-results-round3-first.json", "seeded-results-round4-before-widening.json"] if "--seeded" in args else ["selftest-results.json"]):
+        pp = os.path.join(ROOT, "notes", pf)
+        if os.path.exists(pp):
+            for x in json.load(open(pp)):
+                if x.get("repo_tests", "").startswith("55 passed, 0") and x["id"] not in prevmap:
+                    prevmap[x["id"]] = x
     if "--only" in args:
         only = args[args.index("--only") + 1].split(",")
     if "--prop" in args:
@@ -127,6 +137,31 @@ def main():
             if err:
                 r["status"] = "BROKEN-MUTANT: " + err
                 results.append(r); print(json.dumps(r), flush=True); continue
+            if fast and mut["id"] in prevmap and prevmap[mut["id"]].get("repo_tests", "").startswith("55 passed, 0"):
+                pr = prevmap[mut["id"]]
+                for k in ("repo_tests", "demo_with_change", "demo_without_change"):
+                    if k in pr:
+                        r[k] = pr[k]
+                r["confirmation"] = "carried over from an earlier full run"
+                det = {}
+                t1 = time.time()
+                rc, out = sh(f"./check {mut['prop']} quick", cwd=VER, timeout=7200)
+                viol = [l for l in out.splitlines() if l.startswith("VIOLATION")]
+                det[mut["prop"]] = {"exit": rc, "violations": len(viol), "s": round(time.time() - t1, 1)}
+                msg = [l.strip() for l in out.splitlines() if l.startswith("  case") or l.startswith("  ")][:1]
+                r["first_report"] = (msg[0][:300] if msg else "")
+                r["checks"] = det
+                d = det[mut["prop"]]
+                detected = d["exit"] == 1 and d["violations"] > 0
+                if mut["expect"] == "detect":
+                    r["status"] = "detected" if detected else ("MISSED (exit %d)" % d["exit"])
+                else:
+                    r["status"] = "silent (ok)" if d["exit"] == 0 else "FALSE ALARM on negative control"
+                r["total_s"] = round(time.time() - t0, 1)
+                restore(saved)
+                results.append(r)
+                print(json.dumps(r), flush=True)
+                continue
             rc, out = sh("cargo test --workspace --no-fail-fast --offline 2>&1 | grep -E '^test result|error(\\[|:)|FAILED' | head -20", cwd=REPO)
             passed = sum(int(l.split()[3]) for l in out.splitlines() if l.startswith("test result"))
             failed = sum(int(l.split()[5]) for l in out.splitlines() if l.startswith("test result"))
